@@ -10,6 +10,7 @@ mod print;
 mod refsem;
 mod props;
 mod rng;
+mod scale;
 mod sup;
 mod val;
 mod wild;
